@@ -171,14 +171,19 @@ def pred_cp_permute(inp):
     if not (same_arrays(list(t.factors), fs) and np.array_equal(t.weights, w)):
         return "cp_permute_factors modified its operand"
     # aligned component order: the identity assignment is optimal for the permuted tensor
-    M = np.ones((R, R))
-    for a, b in zip(rfs, fs2):
-        a0 = a * rw if a is rfs[0] else a
-        b0 = b * w2 if b is fs2[0] else b
-        M = M * np.abs((a0 / np.linalg.norm(a0, axis=0)).T @ (b0 / np.linalg.norm(b0, axis=0)))
-    best = max(sum(M[i, p[i]] for i in range(R)) for p in itertools.permutations(range(R)))
-    if np.trace(M) < best - 1e-9:
-        return f"components are not aligned with the reference: congruence {np.trace(M)!r} < optimum {best!r}"
+    def misaligned(w_p, fs_p):
+        M = np.ones((R, R))
+        for k_, (a, b) in enumerate(zip(rfs, fs_p)):
+            a0 = a * rw if k_ == 0 else a
+            b0 = b * w_p if k_ == 0 else b
+            M = M * np.abs((a0 / np.linalg.norm(a0, axis=0)).T @ (b0 / np.linalg.norm(b0, axis=0)))
+        best = max(sum(M[i, p[i]] for i in range(R)) for p in itertools.permutations(range(R)))
+        if np.trace(M) < best - 1e-9:
+            return f"components are not aligned with the reference: congruence {np.trace(M)!r} < optimum {best!r}"
+        return None
+    bad = misaligned(w2, fs2)
+    if bad:
+        return bad
     # list form: the same tensor and a column-rotated, rescaled copy of it; every entry keeps its own tensor
     rot = list(range(1, R)) + [0]
     t2w, t2fs = w[rot] * 2.0, [f[:, rot] for f in fs]
@@ -198,6 +203,9 @@ def pred_cp_permute(inp):
             return f"list form: entry {k} no longer represents its tensor"
         if not (np.array_equal(np.asarray(pts[k].weights), src_w[pk]) and all(np.array_equal(np.asarray(f2), f[:, pk]) for f2, f in zip(pts[k].factors, src_fs))):
             return f"list form: entry {k} is not its operand with the returned assignment applied"
+        bad = misaligned(np.asarray(pts[k].weights), [np.asarray(f) for f in pts[k].factors])
+        if bad:
+            return f"list form: entry {k}: " + bad
     if not (len(lst) == 2 and lst[0] is keep[0] and lst[1] is keep[1]):
         return "cp_permute_factors replaced entries of the caller's list"
     if not (same_arrays(list(lst[0].factors), fs) and same_arrays(list(lst[1].factors), t2fs)):
@@ -467,7 +475,42 @@ def pred_cp_flip_sign_form(inp):
 CLASSIFIERS = {}      # no known finding is open for C04 (the three operand-form crashes were repaired in /repo 98aff0c, 85a028b)
 
 
-PRED = {"cp_mode_dot_form": pred_cp_mode_dot_form, "cp_flip_sign_form": pred_cp_flip_sign_form,
+def dense_ttm(cores):
+    """entry-wise definition of a TT-matrix: (prod_k G_k[:, i_k, j_k, :])[0, 0], shape (m_1..m_N, n_1..n_N)"""
+    ref = np.zeros([g.shape[1] for g in cores] + [g.shape[2] for g in cores], dtype=np.result_type(*cores))
+    for ij in itertools.product(*[range(d) for d in ref.shape]):
+        m = np.eye(1, dtype=ref.dtype)
+        for k, g in enumerate(cores):
+            m = m @ g[:, ij[k], ij[len(cores) + k], :]
+        ref[ij] = m[0, 0]
+    return ref
+
+
+def _pred_dense(fn_path, build, ref):
+    """replayable predicate for the dense reconstructions: implementation == entry-wise definition"""
+    def pred(inp):
+        import importlib
+        mod, name = fn_path.rsplit(".", 1)
+        fn = getattr(importlib.import_module(mod), name)
+        st, out = call(fn, *build(inp))
+        if st != "ok":
+            return f"{name} raised: {out}"
+        if not close(out, ref(inp), exact=is_int(np.asarray(out))):
+            return f"{name} differs from the entry-wise definition"
+        return None
+    return pred
+
+
+PRED_DENSE = {
+    "cp_to_tensor": _pred_dense("tensorly.cp_tensor.cp_to_tensor", lambda i: ((np.array(i["w"], copy=True), cps(i["fs"])),), lambda i: dense_cp(i["w"], i["fs"])),
+    "tucker_to_tensor": _pred_dense("tensorly.tucker_tensor.tucker_to_tensor", lambda i: ((np.array(i["core"], copy=True), cps(i["fs"])),), lambda i: dense_tucker(i["core"], i["fs"])),
+    "tt_matrix_to_tensor": _pred_dense("tensorly.tt_matrix.tt_matrix_to_tensor", lambda i: (cps(i["cores"]),), lambda i: dense_ttm(i["cores"])),
+    "parafac2_to_slice": _pred_dense("tensorly.parafac2_tensor.parafac2_to_slice", lambda i: ((np.array(i["w"], copy=True), cps(i["fs"]), cps(i["Ps"])), i["i"]),
+                                     lambda i: pf2_slices(i["w"], *i["fs"], i["Ps"])[i["i"]]),
+}
+
+
+PRED = {**PRED_DENSE, "cp_mode_dot_form": pred_cp_mode_dot_form, "cp_flip_sign_form": pred_cp_flip_sign_form,
         "cp_normalize": pred_cp_normalize, "cp_flip_sign": pred_cp_flip_sign, "cp_permute_factors": pred_cp_permute,
         "cp_mode_dot": pred_cp_mode_dot, "tucker_mode_dot": pred_tucker_mode_dot, "tucker_normalize": pred_tucker_normalize,
         "parafac2_normalise": pred_pf2_normalise, "pad_tt_rank": pred_pad_tt, "from_CPTensor": pred_from_cp,
@@ -601,8 +644,218 @@ def zcp_res(st, w, fs):
     return f"(Ok ({zrow(np.asarray(w))}, {zmats(fs)}))"
 
 
+# ----------------------------------------------------------------------------- source tie: tensorly source (ast) -> Gallina
+# Mini translator for straight-line decision logic (symbolic execution of assignments / if-elif-else over nat, bool and
+# option-nat variables).  Used for pad_tt_rank's padding amounts and svd_compress_tensor_slices' rank limit: the generated
+# definitions are proved equal to the hand-written model on every run (pad_src_ok, rank_limit_src_ok).
+import ast, inspect, textwrap
+
+
+class Untranslatable(Exception):
+    pass
+
+
+def _sx_expr(e, env, opts):
+    if isinstance(e, ast.Name):
+        if e.id in env:
+            return env[e.id]
+        raise Untranslatable(f"free variable {e.id}")
+    if isinstance(e, ast.Constant) and isinstance(e.value, bool):
+        return "true" if e.value else "false"
+    if isinstance(e, ast.Constant) and isinstance(e.value, int) and e.value >= 0:
+        return f"{e.value}"
+    if isinstance(e, ast.BinOp) and isinstance(e.op, (ast.Add, ast.Sub, ast.Mult)):
+        op = {ast.Add: "+", ast.Sub: "-", ast.Mult: "*"}[type(e.op)]
+        return f"({_sx_expr(e.left, env, opts)} {op} {_sx_expr(e.right, env, opts)})"
+    if isinstance(e, ast.BoolOp):
+        op = "&&" if isinstance(e.op, ast.And) else "||"
+        return "(" + f" {op} ".join(_sx_expr(v, env, opts) for v in e.values) + ")"
+    if isinstance(e, ast.UnaryOp) and isinstance(e.op, ast.Not):
+        return f"(negb {_sx_expr(e.operand, env, opts)})"
+    if isinstance(e, ast.Compare) and len(e.ops) == 1:
+        a, b = _sx_expr(e.left, env, opts), _sx_expr(e.comparators[0], env, opts)
+        f = {ast.Eq: "Nat.eqb {a} {b}", ast.NotEq: "negb (Nat.eqb {a} {b})", ast.Lt: "Nat.ltb {a} {b}", ast.LtE: "Nat.leb {a} {b}",
+             ast.Gt: "Nat.ltb {b} {a}", ast.GtE: "Nat.leb {b} {a}"}.get(type(e.ops[0]))
+        if f:
+            return "(" + f.format(a=a, b=b) + ")"
+    if isinstance(e, ast.Call) and isinstance(e.func, ast.Name) and e.func.id in ("min", "max") and len(e.args) == 2:
+        return f"(Nat.{e.func.id} {_sx_expr(e.args[0], env, opts)} {_sx_expr(e.args[1], env, opts)})"
+    raise Untranslatable(ast.dump(e)[:80])
+
+
+def none_test(t):
+    """`x is not None` / `x is None` on a plain name -> (name, positive?)"""
+    if isinstance(t, ast.Compare) and len(t.ops) == 1 and isinstance(t.left, ast.Name) and isinstance(t.comparators[0], ast.Constant) \
+            and t.comparators[0].value is None and isinstance(t.ops[0], (ast.Is, ast.IsNot)):
+        return t.left.id, isinstance(t.ops[0], ast.IsNot)
+    return None
+
+
+def _sx_run(stmts, env, opts):
+    env = dict(env)
+    for s in stmts:
+        if isinstance(s, ast.Assign):
+            v = _sx_expr(s.value, env, opts)
+            for t in s.targets:
+                if not isinstance(t, ast.Name):
+                    raise Untranslatable("assignment target")
+                env[t.id] = v
+        elif isinstance(s, ast.If):
+            nt = none_test(s.test)
+            if nt and nt[0] in opts:
+                name, pos = nt
+                some_env = dict(env); some_env[name] = f"{name}_v"
+                e_some = _sx_run(s.body if pos else s.orelse, some_env, opts)
+                e_none = _sx_run(s.orelse if pos else s.body, env, opts)
+                for k in set(e_some) | set(e_none):
+                    a, b = e_some.get(k, env.get(k)), e_none.get(k, env.get(k))
+                    if k == name:
+                        continue
+                    if a is None or b is None:
+                        continue            # defined on one path only: not a result variable
+                    env[k] = a if a == b else f"(match {name} with Some {name}_v => {a} | None => {b} end)"
+            else:
+                c = _sx_expr(s.test, env, opts)
+                e1, e2 = _sx_run(s.body, env, opts), _sx_run(s.orelse, env, opts)
+                for k in set(e1) | set(e2):
+                    a, b = e1.get(k), e2.get(k)
+                    if a is None or b is None:
+                        continue
+                    env[k] = a if a == b else f"(if {c} then {a} else {b})"
+        else:
+            raise Untranslatable(type(s).__name__)
+    return env
+
+
+def find_function(module, name):
+    tree = ast.parse(module if isinstance(module, str) else textwrap.dedent(inspect.getsource(module)))
+    for n in ast.walk(tree):
+        if isinstance(n, ast.FunctionDef) and n.name == name:
+            return n
+    raise Untranslatable(f"function {name} not found")
+
+
+def take_while_translatable(stmts, env):
+    """the longest prefix of assignments to plain names / ifs that the translator can execute symbolically"""
+    out = []
+    for s in stmts:
+        if isinstance(s, ast.Assign) and not all(isinstance(t, ast.Name) for t in s.targets):
+            break
+        if not isinstance(s, (ast.Assign, ast.If)):
+            break
+        try:
+            _sx_run(out + [s], env, set())
+        except Untranslatable:
+            break
+        out.append(s)
+    return out
+
+
+def gen_pad(tt_module):
+    """padding amounts of pad_tt_rank: the assignments / ifs at the head of its for-loop body"""
+    fn = find_function(tt_module, "pad_tt_rank")
+    loop = [n for n in fn.body if isinstance(n, ast.For)][0]
+    if not (isinstance(loop.target, ast.Tuple) and [e.id for e in loop.target.elts][0] == "i"):
+        raise Untranslatable("loop header of pad_tt_rank")
+    env0 = {"i": "i", "n_factors": "n_factors", "n_padding": "n_padding", "pad_boundaries": "pad_boundaries"}
+    head = take_while_translatable(loop.body, env0)
+    env = _sx_run(head, env0, set())
+    if "n_padding_left" not in env or "n_padding_right" not in env:
+        raise Untranslatable("padding amounts not found at the head of the loop of pad_tt_rank")
+    sig = "(i n_factors n_padding : nat) (pad_boundaries : bool) : nat"
+    return (f"Definition lpad_src {sig} := {env['n_padding_left']}.\n"
+            f"Definition rpad_src {sig} := {env['n_padding_right']}.\n")
+
+
+def gen_rank_limit(pre_module):
+    """rank_limit of svd_compress_tensor_slices: the if / else on max_rank"""
+    fn = find_function(pre_module, "svd_compress_tensor_slices")
+    ifs = [n for n in fn.body if isinstance(n, ast.If) and none_test(n.test) and none_test(n.test)[0] == "max_rank"]
+    if len(ifs) != 1:
+        raise Untranslatable("rank_limit decision")
+    env = _sx_run(ifs, {"n_cols": "n_cols", "max_rank": "max_rank"}, {"max_rank"})
+    return f"Definition rank_limit_src (n_cols : nat) (max_rank : option nat) : nat := {env['rank_limit']}.\n"
+
+
+LEMMA_PAD = '''
+Lemma pad_src_ok : forall i n npad pb, 0 < n -> lpad_src i n npad pb = lpad n npad pb i /\\ rpad_src i n npad pb = rpad n npad pb i.
+Proof.
+  intros i n npad pb Hn. unfold lpad_src, rpad_src, lpad, rpad.
+  split;
+    repeat match goal with
+           | |- context [Nat.eqb ?a ?b] => destruct (Nat.eqb_spec a b)
+           | |- context [Nat.ltb ?a ?b] => destruct (Nat.ltb_spec a b)
+           | |- context [Nat.leb ?a ?b] => destruct (Nat.leb_spec a b)
+           end; destruct pb; cbn; try reflexivity; exfalso; lia.
+Qed.
+'''
+LEMMA_RANK = '''
+Lemma rank_limit_src_ok : forall (slices : list (list (list Z))) thr mr tapes,
+  svd_compress Zops slices thr mr tapes =
+  map (fun p => compress_slice Zops (rank_limit_src (ncols (hd [] slices)) mr) thr (fst p) (snd p)) (combine slices tapes).
+Proof. intros. unfold svd_compress, rank_limit_src. destruct mr; reflexivity. Qed.
+'''
+SRC_HEADER = '''From Coq Require Import List Arith ZArith Bool Lia. Import ListNotations.
+From TLV Require Import Base.Tensor Base.Ops Model.Transforms Proofs.TransformsProofsTT.
+Open Scope nat_scope.
+(* GENERATED from the TensorLy source by harness/props/C04.py (ast -> Gallina); do not edit *)
+'''
+
+
+def generate_source_lemmas(tt_module, pre_module):
+    """(verdict file, informational file): the padding amounts are part of the advertised form (enlarged ranks), so their lemma
+    decides; the rank limit only selects which slices get compressed (the represented slices do not depend on it), so a change
+    there is reported in the evidence but is not a verdict"""
+    pad = SRC_HEADER + gen_pad(tt_module) + LEMMA_PAD
+    try:
+        rank = SRC_HEADER + gen_rank_limit(pre_module) + LEMMA_RANK
+    except Untranslatable:
+        rank = None
+    return pad, rank
+
+
+def source_tie(chk):
+    """regenerate the source-derived definitions from the current tensorly tree and re-check the lemmas tying them to the model"""
+    import os, shutil, subprocess, importlib
+    d = os.path.join(C.BUILD, "gen", f"C04_{os.getpid()}"); os.makedirs(d, exist_ok=True)
+
+    def coqc(name, text):
+        fn = os.path.join(d, name)
+        open(fn, "w").write(text)
+        r = subprocess.run(["timeout", "300", "coqc", "-w", "none", "-R", os.path.join(C.COQ, "theories"), "TLV", fn], capture_output=True, text=True, cwd=d)
+        if r.returncode == 0:
+            return "proved", ""
+        if r.returncode == 1 and "Error" in (r.stdout + r.stderr):
+            return "failed", (r.stdout + r.stderr)[-1200:]
+        return "skipped", f"coqc rc {r.returncode} (killed / timeout)"
+    try:
+        tt = importlib.import_module("tensorly.tt_tensor"); pre = importlib.import_module("tensorly.preprocessing")
+        try:
+            pad, rank = generate_source_lemmas(tt, pre)
+        except Untranslatable as e:
+            chk.notes.append(f"source tie skipped: the translator does not cover the current source of pad_tt_rank ({e})")
+            chk.cov["source_derived_lemmas"] = {"pad_src_ok": "skipped (untranslatable source)"}
+            return
+        chk.checker_cmds.append("coqc on generated build/gen/C04_*/PadSrc.v: pad_src_ok (tensorly source -> Gallina)")
+        st, detail = coqc("PadSrc.v", pad)
+        res = {"pad_src_ok": st}
+        if st == "failed":
+            chk.broken.append({"what": "source-derived lemma pad_src_ok failed: the padding amounts of pad_tt_rank in the tensorly source no longer equal lpad / rpad of the model",
+                               "detail": detail + "\n--- generated ---\n" + "\n".join(pad.splitlines()[4:6])})
+        elif st == "skipped":
+            chk.notes.append("source tie skipped: " + detail)
+        if rank is not None:
+            st2, detail2 = coqc("RankSrc.v", rank)
+            res["rank_limit_src_ok (informational)"] = st2
+            if st2 == "failed":
+                chk.notes.append("rank limit of svd_compress_tensor_slices in the source differs from the model's (which slices get compressed changed; not a verdict): " + detail2[-300:])
+        chk.cov["source_derived_lemmas"] = res
+    finally:
+        shutil.rmtree(d, ignore_errors=True)
+
+
 # ----------------------------------------------------------------------------- case shards, robust against a loaded machine
-def run_shards(chk, cases, shard=300):
+def run_shards(chk, cases, shard=340):
     """common.run_case_shards (which retries a killed shard once itself) + further serial re-runs of shards whose coqc was
     killed again (OOM killer / timeout on the shared machine).
     A shard that is killed three times is counted as skipped (note in the evidence), never as a verdict;
@@ -636,6 +889,7 @@ def run(chk):
     rng = random.Random(chk.seed)
     chk.build_proofs()
     C.reset_backends()
+    source_tie(chk)
     import tensorly as tl
     from tensorly.cp_tensor import CPTensor, cp_normalize, cp_flip_sign, cp_permute_factors, cp_mode_dot, cp_to_tensor
     quick = chk.tier == "quick"
@@ -1128,6 +1382,9 @@ def run_other_formats(chk, rng, judge, mult, emit):
             exp = "(mk [99999]%nat (@nil Z))" if st != "ok" or not integral(out) else ztens(out)
             emit(lambda: f"ZTTMDense {ztens_list(cores)} {exp}", ("tt_matrix_to_tensor", sh(cores)))
             chk.count(key=("tt_matrix_to_tensor", sh(cores)))
+            ref = dense_ttm(cores)
+            if st != "ok" or not close(out, ref, exact=True):
+                chk.finding("tensorly.tt_matrix.tt_matrix_to_tensor", {"cores": cores}, "tt_matrix_to_tensor differs from the entry-wise chain-product definition", "tt_matrix_to_tensor")
         for npad in (1, rng.randint(2, 3)):
             for pb in ((ring,) if it % 4 < 2 else (ring, not ring)):
                 st, out = call(pad_tt_rank, cps(cores), n_padding=npad, pad_boundaries=pb)
